@@ -12,7 +12,7 @@ TB = ("Lean 4.33.0 kernel + Mathlib v4.33.0; axioms propext/Classical.choice/Quo
       "AST; Python/JAX/XLA/IEEE-754 runtime modelled, not verified.")
 
 COMMON_NOTE = (" The theorem layer covers the single-determinant kinds (rhf, uhf, each NOCI determinant) at the first-quantised level "
-               "(Slater coefficients = minors, one-body operators = column derivations; DESIGN §10 fallback); multi-determinant / CI kinds are "
+               "(Slater coefficients = minors, one-body operators = column derivations; DESIGN §10 fallback); multi-determinant / CI kinds (except determinant-list overlaps, proved) are "
                "validated against an explicit Fock-space state (harness/trials.py + fock.py), not proved. Walkers with vanishing reference "
                "overlap (outside the CI formulas' domain) and exact pivot ties (JAX det defect) are avoided and counted.")
 
@@ -114,7 +114,7 @@ CLAIMED = {
         text=("Lean theorems for every dimension: Cauchy-Binet (proved here; not in Mathlib) gives det(C^H W) = sum over occupation strings of "
               "conj(minor C) minor W, i.e. the rhf/uhf overlap is the many-body inner product for every complex non-orthonormal walker and trial; "
               "restricted = unrestricted on equal blocks; linear combinations (NOCI); batched = per-walker map for every batch split; C C^H of an "
-              "orthonormal determinant is <a+_q a_p>. Tied to the code by rhf/uhf overlaps vs the same Lean definitions executed at Q(i), and for all "
+              "orthonormal determinant is <a+_q a_p>. determinant lists (multislater): the Wick-type formula equals sum_i c_i <D_i|phi> for every list, reference and excitation rank (Props/C11 multislater_overlap); GHF: the stacked matrix is C^T diag(W_up, W_dn), spin-pure GHF = UHF. Tied to the code by rhf/uhf overlaps vs the same Lean definitions executed at Q(i), and for all "
               "12 trial classes (both entry points, batched order, density matrices) against the explicit second-quantised state."),
         design_ref="DESIGN.md §5/C01",
         technique="Lean 4 proof (Cauchy-Binet over increasing strings) + exact Q(i) correspondence + Fock-space spec comparison",
@@ -189,7 +189,7 @@ CLAIMED = {
               "exact eigenvectors (own diagonalisation and pyscf FCI) -> local energies and sampler block energies equal the eigenvalue."),
         design_ref="DESIGN.md §5/C11",
         technique="Lean 4 proof (round trip by induction, sign lemma and complementary-minor identity for every size, eigenvector algebra) + exact correspondence + Fock-space spec",
-        note=TB + " The whole multislater overlap is the sum of these entries over the list (not restated as one theorem; the library's grouping by excitation rank is tied by the comparison with sum_i c_i |D_i>); the multislater energy is a finite difference (tolerance 2e-5); pyscf FCI is an external oracle.",
+        note=TB + " The whole multislater overlap is proved too (multislater_overlap: reference overlap x sum over the list of coefficient x parities x alpha block x beta block = sum_i c_i <D_i|phi>, every list, reference and rank, walkers with non-vanishing reference overlap); the library's grouping of the list by excitation rank and its array code are tied by the comparison with sum_i c_i |D_i>; the multislater energy is a finite difference (tolerance 2e-5); pyscf FCI is an external oracle.",
     ),
     "C10": dict(
         category="proof",
